@@ -147,7 +147,23 @@ def gen_facts():
     with Lock("facts"):
         rc, so, se, dt = run([out, "-repo", REPO, "-out", os.path.join(COQ, "Facts"),
                               "-json", os.path.join(BUILD, "facts.json")], env=env, timeout=600)
+    gen_known_bad()
     return rc == 0, so + se
+
+
+def gen_known_bad():
+    """coq/Facts/KnownBad.v: the committed lists of known_findings.json as Gallina data (never written to at run time)."""
+    p = os.path.join(VERIF, "known_findings.json")
+    data = json.load(open(p)) if os.path.exists(p) else {}
+    cells = [(k["tag"], k["attr"]) for k in data.get("known", []) if k.get("property") == "C09"]
+    cells += [tuple(c) for c in data.get("c09_bypass_sites_without_observed_effect", {}).get("cells", [])]
+    body = ("(* GENERATED from /verif/known_findings.json (committed; not modified by any check). *)\n"
+            "From Coq Require Import List String.\nImport ListNotations.\nOpen Scope string_scope.\n"
+            "Definition listed_cells : list (string * string) := [\n" +
+            ";\n".join('  ("%s", "%s")' % c for c in sorted(set(cells))) + "].\n")
+    path = os.path.join(COQ, "Facts", "KnownBad.v")
+    if not os.path.exists(path) or open(path).read() != body:
+        open(path, "w").write(body)
 
 
 def load_facts():
